@@ -1,5 +1,5 @@
 SPECIFICATION Spec
-CONSTANTS Workers = {1, 2} MaxLog = 5 EagerCursor = FALSE
+CONSTANTS Workers = {1, 2} MaxLog = 3 EagerCursor = FALSE SmallPool = FALSE
 INVARIANT StateIsFold
 INVARIANT Converge
 INVARIANT FoldIsSound
